@@ -480,7 +480,7 @@ def run_check(module_name, tier, seed, workers=None, only_parts=None,
                                   tier=tier, seed=seed, shard=i, n=len(ch),
                                   budget_s=budget, mode="explore",
                                   kind="enum", cases=ch, target=None))
-            if part.exhaustive:
+            if part.exhaustive and cases:
                 exhaustive_parts.append(part.name)
         if part.strategy is not None:
             n = part.quick if quick else part.thorough
